@@ -141,29 +141,39 @@ func (eh *RetryV1EventHandler) HandleEvents(
 			}
 
 			for _, d := range deposits {
-				messageID := fmt.Sprintf("retry-%d-%d-%d-%d", eh.domainID, d.DestinationDomainID, startBlock, endBlock)
-				msg, err := eh.depositHandler.HandleDeposit(
-					eh.domainID, d.DestinationDomainID, d.DepositNonce,
-					d.ResourceID, d.Data, d.HandlerResponse, messageID, d.Timestamp,
-				)
-				if err != nil {
-					eh.log.Err(err).Str("messageID", msg.ID).Msgf("Failed handling deposit %+v", d)
-					continue
-				}
-				isExecuted, err := eh.isExecuted(msg)
-				if err != nil {
-					eh.log.Err(err).Str("messageID", msg.ID).Msgf("Failed checking if deposit executed %+v", d)
-					continue
-				}
-				if isExecuted {
-					eh.log.Debug().Str("messageID", msg.ID).Msgf("Deposit marked as executed %+v", d)
-					continue
-				}
+				// every deposit is handled on its own so that a malformed one
+				// can not suppress the other deposits of the retried transaction
+				func(d events.Deposit) {
+					defer func() {
+						if r := recover(); r != nil {
+							eh.log.Error().Msgf("panic occured while handling retried deposit %+v because %v", d, r)
+						}
+					}()
 
-				eh.log.Info().Str("messageID", msg.ID).Msgf(
-					"Resolved retry message %+v in block range: %s-%s", msg, startBlock.String(), endBlock.String(),
-				)
-				retriesByDomain[msg.Destination] = append(retriesByDomain[msg.Destination], msg)
+					messageID := fmt.Sprintf("retry-%d-%d-%d-%d", eh.domainID, d.DestinationDomainID, startBlock, endBlock)
+					msg, err := eh.depositHandler.HandleDeposit(
+						eh.domainID, d.DestinationDomainID, d.DepositNonce,
+						d.ResourceID, d.Data, d.HandlerResponse, messageID, d.Timestamp,
+					)
+					if err != nil {
+						eh.log.Err(err).Str("messageID", messageID).Msgf("Failed handling deposit %+v", d)
+						return
+					}
+					isExecuted, err := eh.isExecuted(msg)
+					if err != nil {
+						eh.log.Err(err).Str("messageID", msg.ID).Msgf("Failed checking if deposit executed %+v", d)
+						return
+					}
+					if isExecuted {
+						eh.log.Debug().Str("messageID", msg.ID).Msgf("Deposit marked as executed %+v", d)
+						return
+					}
+
+					eh.log.Info().Str("messageID", msg.ID).Msgf(
+						"Resolved retry message %+v in block range: %s-%s", msg, startBlock.String(), endBlock.String(),
+					)
+					retriesByDomain[msg.Destination] = append(retriesByDomain[msg.Destination], msg)
+				}(d)
 			}
 		}(event)
 	}
